@@ -182,7 +182,10 @@ async def run_store(backend, cap, store_seed, nreqs, counters, coverage, explici
             now = int(_time.time())
             for _ in range(3):
                 events.append(u.event(key=u.rng.choice(keys), kind=u.rng.choice([1, 1, 7]), created_at=now + u.rng.choice([600, 3600, 86400 * 30])))
-            counters["post_dated_events"] = counters.get("post_dated_events", 0) + 3
+            # timestamps a client wrote in milliseconds, or beyond year 9999: where the backend stores them, they are the newest
+            for ts in (1700000000123, 253402300800, 2 ** 53):
+                events.append(u.event(key=u.rng.choice(keys), kind=u.rng.choice([1, 7]), created_at=ts))
+            counters["post_dated_events"] = counters.get("post_dated_events", 0) + 6
         await qcore.load_store(rig, conn, events)
         stored = dump.stored_events(dump.dump(rig))
         counters["stores"] = counters.get("stores", 0) + 1
